@@ -17,6 +17,7 @@ def run(model, rep, tier):
     c07.r4_fail_closed(ctx, rep, R='C02.R4')
     r5_status_plumbing(ctx, rep)
     c07.r5_channel_separation(ctx, rep, R='C02.R6')
+    r7_discovery_contains_user_code(ctx, rep)
     rep.units['cfg'] = ctx.cfg_stats
 
 
@@ -355,3 +356,47 @@ def r5_status_plumbing(ctx, rep, R='C02.R5'):
     rep.check(sorted(writers) == ['listing.Listing.global_setup', 'runner.Runner.__init__'], R,
               'do_run_tests is cleared only by the Listing feature', 'writers: %s' % sorted(writers),
               key='do_run_tests:writers', func='runner.Runner.run')
+
+
+def r7_discovery_contains_user_code(ctx, rep, R='C02.R7'):
+    """'a test module could not be imported' must end as an import failure (-> verdict), whatever
+    the module raises while it is imported or while its test_suite() runs -- including
+    SystemExit (a script-like test module ending in sys.exit(main())), which is not an Exception.
+    Only KeyboardInterrupt may end discovery."""
+    rep.rule(R, 'discovery contains user code: of everything the import of a test module or the '
+             'call of its test_suite() may raise (any Exception, SystemExit, KeyboardInterrupt) '
+             'only KeyboardInterrupt can leave find_suites; the rest becomes a StartUpFailure')
+    from sa.escape import Escape
+    from sa.cfg import T_exact, toks_str
+    fs = ctx.model.func('find.find_suites')
+    toks = frozenset([T_exact('Exception'), T_exact('SystemExit'), T_exact('KeyboardInterrupt')])
+    sites = []
+
+    def src(call, fi):
+        f = call.func
+        user = call_name(call) == 'import_name' or \
+            (isinstance(f, ast.Call) and call_name(f) == 'getattr') or \
+            (isinstance(f, ast.Attribute) and f.attr == 'loadTestsFromModule')
+        if user:
+            if call not in sites:
+                sites.append(call)
+            return toks
+        return None
+    e = Escape(ctx, ['find.find_suites'], src, branch=None)
+    got = e.tokens('find.find_suites')
+    rep.floor(R, len(sites), 2, 'user-code call sites in find_suites (import, test_suite())')
+    extra = sorted(c for _k, c in got if c != 'KeyboardInterrupt')
+    g = e.cfg('find.find_suites')
+    path = None
+    for nid, ts in g.escape_sources:
+        if any(c in extra for _, c in ts):
+            p = g.path([g.entry], nid, include_start=True)
+            if p:
+                path = g.describe_path(p) + ['-> raises %s out of find_suites' % toks_str(ts)]
+                break
+    rep.check(not extra, R, 'find_suites: escaping %s' % toks_str(got),
+              'an exception raised while a test module is imported (or its test_suite() runs) '
+              'leaves find_suites instead of becoming an import failure: %s -- e.g. a module that '
+              'calls sys.exit() ends the run with the module\'s own exit status' % extra,
+              key='find_suites escapes %s' % extra, func=fs.qualname, where=ctx.where(fs, fs.node),
+              path=path)
